@@ -96,7 +96,7 @@ def gen_plan(seed, index, tier):
             qs.sort()
         if rng.random() < 0.15:
             qs.insert(rng.randint(0, len(qs)), rng.choice(qs))  # a repeated quantile is legal: one entry per *requested* quantile
-        n_boot = rng.choice([1, 2, 3, 5, 8, 13, 25])
+        n_boot = rng.choice([1, 2, 3, 5, 8, 13, 25, 25, 32])
         if rare:
             n_boot = rng.choice([2, 2, 3, 3, 4])
     plan = {
@@ -318,6 +318,17 @@ def execute(plan, ctx):
             ctx.fail("C18.resamples_identical", f"all {B} resamples contain the same multiset of rows")
         if not any(len(set(blk["rows"])) < len(blk["rows"]) for blk in resamples):
             ctx.fail("C18.no_replacement", f"no resample among {B} contains a repeated row (sampling without replacement?)")
+    # every data row is drawn at least once over >= 25 resamples (a correct sampler misses a given row with
+    # probability (1 - 1/n)^(n*B) <= e^-25; over n <= 40 rows that is < 1e-9 per run)
+    if B >= 25:
+        drawn = set()
+        for blk in resamples:
+            drawn.update(blk["rows"])
+        never = sorted(set(range(n)) - drawn)
+        if never:
+            ctx.fail("C18.rows_never_drawn", f"data row(s) {never[:5]} of {n} were drawn in none of the {B} resamples "
+                     f"(every resample must draw from all n data rows)")
+        ctx.probe("row_coverage_checked")
     # ---- 6. quantile bracket against the spy-computed per-resample values -----------------------
     _bracket_checks(ctx, plan, res1, resamples)
     # ---- 7. wide pair ------------------------------------------------------------------------------
